@@ -584,6 +584,11 @@ impl LdapConnAsync {
         stream: TcpStream,
     ) -> Result<TlsStream<TcpStream>> {
         let no_tls_verify = settings.no_tls_verify;
+        // The host of a URL with an IPv6 literal is bracketed; a server name is not.
+        let hostname = hostname
+            .strip_prefix('[')
+            .and_then(|h| h.strip_suffix(']'))
+            .unwrap_or(hostname);
         let config = match settings.config {
             Some(config) => config,
             None => LdapConnAsync::create_config(&settings),
